@@ -74,6 +74,7 @@ def run(ctx):
     if nops < 20:
         raise Broken("C08.R1: only %d ops explored" % nops)
 
+    check_ops_before_open(P, ctx)
     check_fd_ownership(P, ctx)
     check_owner_false(P, ctx, tables)
     check_resource_asserts(P, ctx)
@@ -324,3 +325,36 @@ def check_fields_released(P, ctx):
 
 def check_files(P, ctx, tables):
     pass
+
+
+def check_ops_before_open(P, ctx):
+    """R10: between init and connect/server/accept only attribute callbacks and close are allowed on a socket
+    (xcm_tp.h).  The attribute map is applied in that window; the xcm.blocking setter finishes outstanding work
+    when a non-blocking socket becomes blocking - which must not happen there."""
+    r = ctx.rule("C08.R10", "no data-path op (finish/send/receive/update) is reachable on a socket between init and connect/server/accept")
+    data_ops = {"xcm_tp_socket_finish", "xcm_tp_socket_send", "xcm_tp_socket_receive", "xcm_tp_socket_update"}
+    callbacks = CG.library_callbacks(P)
+    sa = P.fn("set_attrs")
+    for api in ("xcm_connect_a", "xcm_server_a", "xcm_accept_a"):
+        f = P.fn(api)
+        r.instance(api)
+        # the blocking mode the new socket is created with
+        mode = None
+        for c in f.calls("socket_create"):
+            mode = C.const_of(f, f.nodes[c]["args"][2])
+        guard = CG.FieldFalse("xcm_socket", "is_blocking", True) if mode == 1 else (CG.FieldFalse("xcm_socket", "is_blocking", False) if mode == 0 else None)
+        parent, edges_of = CG.reach(P, [sa], guard=guard, callbacks=callbacks)
+        hits = [d for d in parent if d.name in data_ops]
+        if not hits:
+            r.ok("%s: the socket is created %s; applying the attribute map reaches no data-path op" % (api, "blocking" if mode == 1 else "non-blocking"),
+                 "call-graph reachability with the creation mode folded into xcm_set_blocking's test")
+        else:
+            chain = [g.name for g in CG.path_to(parent, hits[0])]
+            r.violation("%s:set_attrs->%s" % (api, hits[0].name),
+                        "%s creates the new socket in the mode of %s and applies the attribute map before the socket is opened: xcm.blocking=true on a "
+                        "non-blocking one calls %s on an initialised-only socket (%s), which the transports answer with an assertion failure"
+                        % (api, "its server socket" if mode is None else "a constant", hits[0].name, " -> ".join(chain)), loc=f.file, chain=chain)
+    # positive control: with the guard off the finish call must be found from set_attrs
+    parent, _ = CG.reach(P, [sa], guard=None, callbacks=callbacks)
+    if not any(d.name == "xcm_tp_socket_finish" for d in parent):
+        raise Broken("C08.R10 self-check: xcm_tp_socket_finish is not reachable from set_attrs with the guard off")
